@@ -179,6 +179,23 @@ C["C17"]["harnesses"] += [
     H("ZZWebseedCap", "torrent", "real newTorrent with 0..12 web-seed sources and WebseedMaxSources 0..12: no crash, at most the maximum kept, nothing dropped within the limit", T(45, 900, flags=["-nospawn"]), T(45, 900, flags=["-nospawn"]), replay="model"),
 ]
 
+DIAL = H("ZZDialAdmission", "torrent", "every sequence of 4 events on a downloading torrent with MaxPeerDial 1..2 and the blocklist 10.0.1.0/24 enabled - tracker reply with one of 6 addresses (two ports of one host, another host, a blocked host, the own listening address, a zero port), outgoing handshake done (ok/failed), a connected peer delivering a piece that fails the hash check, a disconnect, an incoming connection (3 hosts): every dial goes to an address with non-zero port that is not the client's own, not blocked, not banned (incl. the peer banned by this very event), not already connected or connecting; at most MaxPeerDial outgoing connections; one connection per IP; the corrupt peer is disconnected and banned; blocked/banned/duplicate incoming connections are closed", T(40, 1800, 6, 6, flags=["-nospawn"]), T(40, 1800, 6, 6, flags=["-nospawn"]), replay="model")
+C["C18"]["harnesses"] += [
+    DIAL,
+    H("ZZDialAdmission5", "torrent", "5 events", None, T(40, 7000, 32, 8, flags=["-nospawn"]), replay="model"),
+    H("ZZAddrListFilter", "internal/addrlist", "one Push of an arbitrary address (any 4 IP bytes, any 16-bit port) with the blocklist 10.0.1.0/24, listening port 6881, client address 10.0.0.9: stored iff port != 0, not loopback:6881, not the client's address, not blocked (real blocklist loader + segment tree)", T(40, 600), T(40, 600)),
+    H("ZZAddrListSeq", "internal/addrlist", "every sequence of 4 Push (one of 3 admissible addresses, arbitrary possibly colliding priorities, symbolic non-decreasing clock) / Pop operations on the real AddrList (real google/btree) bounded to 1..2: never more than the maximum stored, representation consistent (indexes, sizes, no panic), per-source counts exact, Pop returns and removes exactly the stored address of highest priority", T(40, 1800, 6, 6), T(40, 1800, 6, 6)),
+    H("ZZAddrListSeq5", "internal/addrlist", "5 operations, bound 1..3", None, T(40, 7000, 32, 8)),
+    H("ZZLoadConcrete", "internal/blocklist", "real loader (bufio scanner, net.ParseCIDR) on a concrete list with a comment, one rule and a blank line: one rule; 10.0.1.x blocked for every x, 10.0.0.x and 10.0.2.x not", T(60, 600), T(60, 600)),
+]
+C["C18"]["assumptions"] += ["peer priority (CRC32-C of the address pair) replaced by an arbitrary function of the address (addrlist harness) / an injective concrete function (dial harness)", "torrent fixture for dial admission: real newTorrent/handlers, handshaker goroutines not run (their results are events)", "announce-to-blocked-tracker (resolver) not covered", "package unique modelled by an engine-side interning table"]
+C["C01"]["harnesses"] += [DIAL]
+C["C17"]["harnesses"] += [
+    DIAL,
+    H("ZZWriterQueueCap", "internal/peerconn/peerwriter", "real PeerWriter.Run + message writer on a connection that takes a frame only when the harness lets it; every sequence of 5 operations (queue an upload, cancel a queued / written / never-made request, choke, connection takes a frame) with a limit of 1..2 queued requests, fast extension on/off: queued piece messages <= limit, the writer's counter == piece messages actually queued (never negative)", T(45, 1800, 4, 6), T(45, 1800, 4, 6)),
+    H("ZZWriterQueueCap6", "internal/peerconn/peerwriter", "6 operations", None, T(45, 7000, 32, 8)),
+]
+
 C["C12"]["harnesses"] += [
     H("ZZTwoParty", "internal/mse", "real HandshakeOutgoing and HandshakeIncoming as two goroutines over an in-memory pipe (whole or byte-by-byte transport), same key, each of the four pads 0..1 bytes, initial payload 0 or 2 bytes, offer {plain, rc4, both}, responder selecting none / plaintext / rc4 / an invalid value: fails on both sides or both agree on one offered cipher; initial payload and a message in each direction are read unchanged", T(120, 900, 4, 5), T(120, 900, 4, 5), replay="model"),
     H("ZZTwoPartyWrongKey", "internal/mse", "different keys never complete on both sides", T(120, 900), T(120, 900), replay="model"),
